@@ -3,5 +3,5 @@ CONSTANTS
   KeyIds <- MCKeys
   UnderlayIds <- MCUnderlays
   NetIds <- MCNets
-INVARIANTS MechanismIsStatement OwnAlwaysAccepted ChangedRejected
+INVARIANTS MechanismIsStatement OwnAlwaysAccepted ChangedRejected ShiftKeepsSignedBytes BoundaryPinnedByExactComparison FieldsNormal AcceptedOverlayIs32
 CHECK_DEADLOCK FALSE
